@@ -775,6 +775,7 @@ Proof.
 Qed.
 
 (* ------------------------------------------------------------------ extend *)
+Arguments extend_shortcut : simpl never.
 Definition entry_dim_ok (dpq : nat) (e : ext_entry) : Prop :=
   qubit_is_int (x_qubits e) = true /\ p_d (x_pulse e) = dpq ^ length (qubit_list (x_qubits e)).
 Definition valid_extend (x : extend_d) : Prop :=
@@ -819,7 +820,7 @@ Proof.
   rewrite (all_eqb_const Nat.eqb t _ (Nat.eqb_refl t) Ht). simpl. rewrite Hq. simpl.
   assert (NN : match x_N x with None => true | Some n => fold_right Nat.max 0 (flat_map (fun e => qubit_list (x_qubits e)) (x_entries x)) + 1 <=? n end = true).
   { destruct (x_N x) as [n|]; auto. apply Nat.leb_le. apply HN. reflexivity. }
-  rewrite NN. simpl.
+  rewrite NN. simpl. destruct (extend_shortcut _ _); [reflexivity|].
   assert (FF : match x_cache_ff x with
                | Some true => x_omega_given x || all_equal_nonempty (optnat_tags (map (fun e => p_omega (x_pulse e)) (x_entries x)))
                               && forallb (fun e => negb (is_none (p_omega (x_pulse e)))) (x_entries x)
@@ -1108,7 +1109,7 @@ Proof.
   rewrite (all_eqb_const Nat.eqb t _ (Nat.eqb_refl t) Ht). cbn [check bind]. rewrite Hq. cbn [check bind].
   assert (NN : match x_N x with None => true | Some n => fold_right Nat.max 0 (flat_map (fun e => qubit_list (x_qubits e)) (x_entries x)) + 1 <=? n end = true).
   { destruct (x_N x) as [n|]; auto. apply Nat.leb_le. apply HN. reflexivity. }
-  rewrite NN. cbn [check bind].
+  rewrite NN. cbn [check bind]. unfold extend_shortcut. cbn [x_add is_none andb].
   assert (FF : match x_cache_ff x with
                | Some true => x_omega_given x || all_equal_nonempty (optnat_tags (map (fun e => p_omega (x_pulse e)) (x_entries x)))
                               && forallb (fun e => negb (is_none (p_omega (x_pulse e)))) (x_entries x)
@@ -1121,7 +1122,8 @@ Qed.
 
 Theorem extend_complete_flags x H : valid_extend x ->
   validate_extend (with_add x H (Some false)) = Raise ValueError /\
-  (x_omega_given x = false -> ~ (all_equal_nonempty (optnat_tags (map (fun e => p_omega (x_pulse e)) (x_entries x))) = true /\
+  (2 <= length (x_entries x) ->
+   x_omega_given x = false -> ~ (all_equal_nonempty (optnat_tags (map (fun e => p_omega (x_pulse e)) (x_entries x))) = true /\
                                  forallb (fun e => negb (is_none (p_omega (x_pulse e)))) (x_entries x) = true) ->
    validate_extend (Build_extend_d (x_entries x) (x_ndt x) (x_N x) (x_dpq x) (x_add x) (x_cache_diag x) (Some true) false) = Raise ValueError).
 Proof.
@@ -1135,18 +1137,21 @@ Proof.
     rewrite L. simpl negb. cbn [check bind].
     rewrite (proj2 (forallb_Forall (fun e => p_ispulse (x_pulse e)) _) Hp). cbn [check bind].
     rewrite D0, D1, D2, D3. cbn [check bind].
-    rewrite (all_eqb_const Nat.eqb t _ (Nat.eqb_refl t) Ht). cbn [check bind]. rewrite Hq. cbn [check bind]. rewrite NN. cbn [check bind].
+    rewrite (all_eqb_const Nat.eqb t _ (Nat.eqb_refl t) Ht). cbn [check bind]. rewrite Hq. cbn [check bind]. rewrite NN. cbn [check bind]. unfold extend_shortcut. cbn [x_add is_none andb].
     assert (FF : match x_cache_ff x with
                  | Some true => x_omega_given x || all_equal_nonempty (optnat_tags (map (fun e => p_omega (x_pulse e)) (x_entries x)))
                                 && forallb (fun e => negb (is_none (p_omega (x_pulse e)))) (x_entries x)
                  | _ => true end = true).
     { destruct (x_cache_ff x) as [[|]|]; auto. rewrite (Hff eq_refl). reflexivity. }
     rewrite FF. reflexivity.
-  - intros Ho Hne'. unfold validate_extend. cbn [x_entries x_ndt x_N x_dpq x_add x_cache_diag x_cache_ff x_omega_given].
+  - intros H2 Ho Hne'. unfold validate_extend. cbn [x_entries x_ndt x_N x_dpq x_add x_cache_diag x_cache_ff x_omega_given].
     rewrite L. simpl negb. cbn [check bind].
     rewrite (proj2 (forallb_Forall (fun e => p_ispulse (x_pulse e)) _) Hp). cbn [check bind].
     rewrite D0, D1, D2, D3. cbn [check bind].
     rewrite (all_eqb_const Nat.eqb t _ (Nat.eqb_refl t) Ht). cbn [check bind]. rewrite Hq. cbn [check bind]. rewrite NN. cbn [check bind orb].
+    assert (SC : forall n, extend_shortcut (Build_extend_d (x_entries x) (x_ndt x) (x_N x) (x_dpq x) (x_add x) (x_cache_diag x) (Some true) false) n = false).
+    { intros n. unfold extend_shortcut. cbn [x_entries x_add]. destruct (x_entries x) as [|e1 [|e2 r]]; simpl in H2; try lia; apply andb_false_r. }
+    rewrite SC.
     destruct (all_equal_nonempty _ && forallb _ _) eqn:E; [|reflexivity].
     exfalso. apply Hne'. apply andb_true_iff in E. exact E.
 Qed.
